@@ -42,14 +42,14 @@ def static_objects(prog):
     for g in prog.globals.values():
         if not g.unit.startswith("lib/"):
             continue
-        out[g.name] = {"type": g.type, "const": g.is_const, "unit": g.unit, "where": "%s:%s" % (g.unit, g.line), "fn": None}
+        out[g.name] = {"type": g.type, "const": g.is_const, "unit": g.unit, "where": "%s:%s" % (g.unit, g.line), "fn": None, "tls": bool(g.j.get("tls"))}
     for f in prog.lib_functions():
         for n in f.walk():
             if n.k == "DeclStmt":
                 for d in n.j.get("decls", []):
                     if d.get("static"):
                         out["%s::%s" % (f.name, d["name"])] = {"type": d.get("t"), "const": d.get("const"), "unit": f.unit,
-                                                                "where": n.where, "fn": f.name, "local": d["name"]}
+                                                                "where": n.where, "fn": f.name, "local": d["name"], "tls": bool(d.get("tls"))}
     return out
 
 
@@ -90,6 +90,9 @@ def run(prog, ctx):
     for name, o in sorted(objs.items()):
         if name in rows:
             ctx.ok("T1", "static object %s" % name, o["where"], "in the inventory: %s" % rows[name]["role"])
+            continue
+        if o.get("tls"):
+            ctx.ok("T1", "static object %s" % name, o["where"], "thread storage duration: every thread has its own")
             continue
         ws = writers.get(name, [])
         if not ws and (o["const"] or True):
@@ -240,6 +243,19 @@ def run(prog, ctx):
                 ctx.ok("T4", inst, st.where, "NULL")
                 continue
             if lct == "struct file_entry":
+                # an entry taken out of the array, the others shifted with memmove(), the entry put back elsewhere: a permutation of
+                # the slots, no string gets a second owner
+                if r.k == "DeclRefExpr" and r.j.get("dk") == "local" and l.k == "ArraySubscriptExpr":
+                    base = render(l.children[0])
+                    fcfg = f.cfg
+                    loads = [(n2, d2) for n2 in f.walk() if n2.k == "DeclStmt" for d2 in n2.j.get("decls", [])
+                             if d2["name"] == r.j["name"] and d2.get("init", -1) >= 0 and f.nodes[d2["init"]].strip().k == "ArraySubscriptExpr"
+                             and render(f.nodes[d2["init"]].strip().children[0]) == base]
+                    others = [x for lhs2, x, st2 in f.assignments() if not isinstance(lhs2, dict) and render(lhs2) == r.j["name"]]
+                    moves = [c2 for c2 in f.calls("memmove") if len(c2.call_args()) == 3 and base in render(c2.call_args()[0]) and base in render(c2.call_args()[1])]
+                    if len(loads) == 1 and not others and any(fcfg.node_dominates(loads[0][0], m2) and fcfg.node_dominates(m2, st) for m2 in moves):
+                        ctx.ok("T4", inst, st.where, "entry taken out of %s, the others shifted by memmove(), put back: the slots are permuted" % base)
+                        continue
                 if r.k == "CallExpr":
                     ctx.ok("T4", inst, st.where, "whole-entry value built by %s (its fields are checked there)" % r.j.get("callee"))
                 else:
@@ -267,6 +283,22 @@ def run(prog, ctx):
                 ok2, why2 = ma.is_fresh_expr(f, root)
                 if ok2:
                     ctx.ok("T4", inst, st.where, "element of a private scratch array")
+                    continue
+            if r.k in ("MemberExpr", "ArraySubscriptExpr", "UnaryOperator"):
+                # a move: `dest->f = src->f; ... src->f = NULL;` - the source gives the pointer up in the same breath
+                fcfg = f.cfg
+                sb4 = fcfg.block_of(st)
+                nulled = [st5 for l5, r5, st5, k5 in query.stores(f) if k5 == "=" and r5 is not None and r5.is_null_const() and render(l5) == render(r)
+                          and fcfg.block_of(st5) == sb4 and fcfg.index_of(st5) > fcfg.index_of(st)]
+                if nulled:
+                    ctx.ok("T4", inst, st.where, "moved: the source slot is set to NULL right after (%s)" % nulled[0].where)
+                    continue
+            if r.k == "DeclRefExpr" and r.j.get("dk") == "local":
+                # the slot's own earlier value put back (`pre = e.value; e.value = strdup(..); if (!e.value) { e.value = pre; return NOMEM; }`)
+                from sa.dataflow import ReachingDefs as _RD4
+                ds4 = _RD4(f).reaching(r.j["name"], st)
+                if ds4 and all(d4.rhs is not None and render(d4.rhs.strip()) == render(l) for d4 in ds4):
+                    ctx.ok("T4", inst, st.where, "the slot's own earlier value, saved in `%s`, is put back" % r.j["name"])
                     continue
             ctx.fail("T4", inst, st.where,
                      "a pointer that is not fresh (%s) is stored into an object: two owners / two objects may share it" % why,
